@@ -34,7 +34,7 @@ def run(tier, rep):
     bundle = de.real_bundle()
     fe.mc(rep, "items", 3 if quick else 4, maxpay=2, damage=False, optset="OptCore" if quick else "OptAll", bundle=bundle)
     rnd = rng("c02")
-    pool = stream_corpus.payload_pool(bundle, "c02") + stream_corpus.special_payloads(bundle, rnd)
+    pool = stream_corpus.payload_pool(bundle, "c02") + stream_corpus.special_payloads(bundle, rnd) + stream_corpus.syncy_payloads(rnd, 20)
     tr = fe.Traces(rep)
     n = 36 if quick else 400
     for i in range(n):
@@ -42,9 +42,12 @@ def run(tier, rep):
         data, items = gen_streams.mixed_stream(rnd, pool, rnd.randint(3, 16), well_formed=True, dmg=0.0, crlf_only=(kind == "socket"))
         parsed = rnd.random() < 0.8
         quit = rnd.choice([0, 1, 2])
-        seg = sockdouble.segmentation(rnd, len(data), rnd.choice(["all", "small", "mixed", "random"])) if kind == "socket" else None
+        seg = None
+        if kind == "socket":
+            mode = rnd.choice(["critical", "critical", "small", "mixed", "random", "all"])
+            seg = sockdouble.critical_segmentation(rnd, [it[1] for it in items]) if mode == "critical" else sockdouble.segmentation(rnd, len(data), mode)
         want = [it[1] for it in items if it[0] == "frame"] if parsed else [it[1] for it in items if it[0] in ("frame", "frame0")]
-        tr.add(data, kind=kind, validate=rnd.choice([0, 1]), parsed=parsed, quit=quit, seg=seg, bufsize=rnd.choice([1, 7, 512, 4096]),
+        tr.add(data, kind=kind, validate=rnd.choice([0, 1]), parsed=parsed, quit=quit, seg=seg, bufsize=rnd.choice([7, 512, 4096, 4096]),
                rnd=rnd, use_iter=bool(i % 2), want=want, nitems=len(items), nframes=len(want))
     verdicts = tr.judge()
     for tid, v in verdicts.items():
